@@ -592,6 +592,19 @@ fn parse_qualified_rule(input: &mut StepParser, ss: &mut StyleSheetTransformer) 
         if r.is_ok() {
             return;
         }
+        // `:host` anywhere else in the selector list is a combination as well
+        let state = input.state();
+        let found = prelude_mentions_host(input);
+        input.reset(&state);
+        if let Some(pos) = found {
+            while let Ok(next) = input.next() {
+                if *next == Token::CurlyBracketBlock {
+                    break;
+                }
+            }
+            ss.add_warning(error::ParseErrorKind::HostSelectorCombination, pos..pos);
+            return;
+        }
     }
     loop {
         let r = input.try_parse::<_, _, ParseError<()>>(|input| {
@@ -646,6 +659,42 @@ fn parse_qualified_rule(input: &mut StepParser, ss: &mut StyleSheetTransformer) 
             }
             Err(_) => break,
         }
+    }
+}
+
+/// Look for a `:host` pseudo-class in the prelude of a qualified rule (the parser is left wherever the search ended).
+fn prelude_mentions_host(input: &mut StepParser) -> Option<error::Position> {
+    let mut colons = 0;
+    loop {
+        let Ok(next) = input.next_including_whitespace() else {
+            return None;
+        };
+        match &*next {
+            Token::CurlyBracketBlock => return None,
+            Token::Colon => {
+                colons += 1;
+                continue;
+            }
+            Token::Ident(x) if colons == 1 && x.eq_ignore_ascii_case("host") => {
+                return Some(input.position());
+            }
+            Token::Function(x) if colons == 1 && x.eq_ignore_ascii_case("host") => {
+                return Some(input.position());
+            }
+            Token::Function(_) | Token::ParenthesisBlock => {
+                let found = input
+                    .parse_nested_block::<_, _, ()>(|nested_input| {
+                        Ok(prelude_mentions_host(&mut StepParser::wrap(nested_input)))
+                    })
+                    .ok()
+                    .flatten();
+                if found.is_some() {
+                    return found;
+                }
+            }
+            _ => {}
+        }
+        colons = 0;
     }
 }
 
